@@ -46,8 +46,61 @@ def c01(ctx):
 @prop("C06")
 def c06(ctx):
     ans_states(ctx, ["TypeInv", "StateInv"], "c06")
+    range_hists(ctx, ["TypeInv", "StateInv", "RefAgree"], "c06")
+    for c in RANGE_CLASSES:
+        ctx.require(c)
     for c in ("enc_flush", "enc_noflush", "dec_refill", "dec_norefill", "binary_state"):
         ctx.require(c)
+
+
+# (W, S, MaxSyms, PSet)
+RANGE_QUICK = [(2, 4, 4, "{1,2}"), (2, 6, 3, "{1,2}"), (2, 6, 5, "{2}"), (3, 6, 2, "{1,2,3}"), (3, 6, 3, "{2}")]
+RANGE_THOROUGH = [(2, 4, 5, "{1,2}"), (2, 6, 5, "{1,2}"), (2, 8, 4, "{1,2}"), (3, 6, 3, "{1,2,3}"), (3, 9, 3, "{2,3}"), (4, 8, 3, "{2,4}"), (4, 8, 2, "{1,2,3,4}")]
+
+
+def range_hists(ctx, invs, mode, widths=None, spec_violation_is=None):
+    """TLC: every message of <= MaxSyms symbols through Range.tla (encoder, reference coder and decoder), checking
+    `invs` in every state and emitting one replay case per message; harness: replay in `mode` on the real coder."""
+    widths = widths or (RANGE_THOROUGH if ctx.tier == "thorough" else RANGE_QUICK)
+    for (w, s, ms, pset) in widths:
+        cases = os.path.join(ctx.work, "range_%d_%d_%d.ndjson" % (w, s, ms))
+        sl = (s // w + 1) if ctx.tier == "thorough" else (s // w - 1)
+        st = ctx.tlc("MC_Range", {"W": w, "S": s, "MaxSyms": ms, "PSet": pset, "SuffixLen": sl}, invariants=invs + ["Emit"],
+                     emit_to=cases, label="MC_Range_%d_%d" % (w, s))
+        if st["spec_violation"]:
+            ctx.violation("specification invariant %s fails at W=%d S=%d:\n%s" % (st["spec_violation"], w, s, st.get("counterexample", "")),
+                          {"k": "spec", "module": "MC_Range", "constants": st["constants"], "invariant": st["spec_violation"]})
+        ctx.vh("replay", mode=mode, infile=cases)
+
+
+RANGE_CLASSES = ["no_renorm", "normal_normal", "normal_inverted", "inverted_inverted", "resolve_carry", "resolve_nocarry",
+                 "seal_one_word", "seal_two_words", "seal_inverted_carry", "seal_inverted_nocarry", "seal_fresh"]
+
+
+@prop("C02")
+def c02(ctx):
+    range_hists(ctx, ["TypeInv", "StateInv", "RoundTrip", "ExhaustedAfter", "EmptyMessage", "InSync"], "c02")
+    for c in RANGE_CLASSES + ["iid_batch"]:
+        ctx.require(c)
+
+
+@prop("C11")
+def c11(ctx):
+    range_hists(ctx, ["TypeInv", "StateInv", "SuffixOK"], "c11")
+    for c in RANGE_CLASSES:
+        ctx.require(c)
+
+
+@prop("C07")
+def c07(ctx):
+    range_hists(ctx, ["TypeInv", "StateInv", "InSync"], "c07")
+    for c in ["seek_final", "seek_snapshot_inverted"]:
+        ctx.require(c)
+
+
+@prop("C09")
+def c09(ctx):
+    range_hists(ctx, ["TypeInv", "StateInv"], "c09")
 
 
 @prop("C04")
@@ -78,6 +131,8 @@ def c18_ans(ctx):
 @prop("C08")
 def c08(ctx):
     c08_ans(ctx)
+    range_hists(ctx, ["TypeInv", "StateInv"], "c08")
+    ctx.require("inspect_while_inverted")
 
 
 @prop("C10")
@@ -88,11 +143,16 @@ def c10(ctx):
 @prop("C12")
 def c12(ctx):
     c12_ans(ctx)
+    range_hists(ctx, ["TypeInv", "StateInv", "WordsBound", "StepBound"], "c12")
+    ctx.require("bits_bound_evaluated")
 
 
 @prop("C18")
 def c18(ctx):
     c18_ans(ctx)
+    range_hists(ctx, ["TypeInv", "StateInv", "SizesOK", "ExhaustedAfter"], "c18")
+    for c in ["sizes_while_inverted", "not_exhausted_checked"]:
+        ctx.require(c)
 
 
 def selftest():
